@@ -244,7 +244,10 @@ def step (w : W) (ws : List String) : W × String :=
     match unesc name.toList, loc.toList with
     | some name, 'L' :: loc =>
       match unesc loc, findEntry ZChain.Generated.C48.globals name with
-      | some loc, some e => (w, "inforce " ++ canonTyped e.ct (globalInForce P w.g name e.ct loc))
+      | some loc, some e =>
+        -- read with the type of the accessor the code uses (falls back to the declared type for settings nobody reads)
+        let ct := (globalReaderCT name).getD e.ct
+        (w, "inforce " ++ canonTyped ct (globalInForce P w.g name ct loc))
       | some _, none => (w, "inforce-unknown")
       | none, _ => (w, "bad-op")
     | _, _ => (w, "bad-op")
